@@ -191,6 +191,9 @@ impl Runnable for Cfg {
                 } else {
                     params = params.link(Link::Log);
                 }
+                // small-scale features keep exp(linear predictor) finite during the line search
+                let x = x.mapv(|v| v * 0.25);
+                let q = q.mapv(|v| v * 0.25);
                 match params.fit(&DatasetBase::new(x, yp)) {
                     Ok(m) => {
                         out.arr("tweedie:coef", &m.coef);
